@@ -104,6 +104,7 @@ pub fn one_case(kind: &str, si: &gen::SchemaInfo, input: &J, out: &mut Out) {
     match kind {
         "trace" => trace_case(si, input.as_str().unwrap(), out),
         "svisit" => svisit_case(&si.name, &si.text, out),
+        "collect" => crate::collectcases::collect_case(si, input.as_str().unwrap(), out),
         "validate" | "purity" => crate::valcases::validate_case(si, input.as_str().unwrap(), &tmpdir(), out),
         "c04" | "c10" | "c09" | "c11" | "c06" | "c07" | "c08" | "c05" => crate::valcases::rules_case(si, input.as_str().unwrap(), &crate::valcases::RULES, &tmpdir(), out),
         "ext" => {
@@ -281,6 +282,26 @@ pub fn generate(kind: &str, thorough: bool, seed: u64, corpus: &str, out: &mut O
                 let si = gen::SchemaInfo::new(&format!("random{}", i), &gen::random_schema(&mut rng));
                 out.schema(&si);
                 for t in random_docs(&si, &mut rng, 50, 5) { crate::valcases::rules_case(&si, &t, &rules, &tmp, out); }
+            }
+        }
+        "collect" => {
+            let si = gen::SchemaInfo::new("tiny", &format!("{}{}", schemas::PRELUDE, schemas::TINY));
+            out.schema(&si);
+            let budget = if thorough { 4 } else { 3 };
+            let bodies = crate::enumgen::selsets(&["a", "k: a", "a: t", "t"], &["", "T", "I", "U", "V", "Zed"], &["F", "G", "Nope"], budget, 3);
+            for b in bodies.iter() {
+                let text = format!("query {} fragment F on T {{ a ...G }} fragment G on I {{ k: a ...F ...Nope ...H }} fragment H on V {{ a v {{ ...H }} }}", b);
+                crate::collectcases::collect_case(&si, &text, out);
+            }
+            for si in pool() {
+                out.schema(&si);
+                for t in corpus_docs(corpus, &si.name) { crate::collectcases::collect_case(&si, &t, out); }
+                for t in random_docs(&si, &mut rng, 80 * scale, 4) { crate::collectcases::collect_case(&si, &t, out); }
+            }
+            for i in 0..(6 * scale) {
+                let si = gen::SchemaInfo::new(&format!("random{}", i), &gen::random_schema(&mut rng));
+                out.schema(&si);
+                for t in random_docs(&si, &mut rng, 40, 4) { crate::collectcases::collect_case(&si, &t, out); }
             }
         }
         _ => panic!("unknown kind {}", kind),
